@@ -108,6 +108,13 @@ class with_latest_from:
     def done(s):
         return s.term
 
+    def on_subscribe(s, out):
+        # the others are subscribed BEFORE the primary: a primary element delivered on subscription (or in the same instant as
+        # the others' first values) already finds them
+        for i in range(1, s.n):
+            out.subscribe_source(i)
+        out.subscribe_source(0)
+
     def on_next(s, out, i, x):
         if i == 0:
             if all(s.has[1:]):
